@@ -126,6 +126,12 @@ Theorem C03_shuffle_perm : forall outcome m,
 Proof. exact shuffle_legal. Qed.
 Print Assumptions C03_shuffle_perm.
 
+(* ... and the model accepts exactly the permutations: no legal outcome is ever rejected *)
+Theorem C03_shuffle_legal_iff_permutation : forall outcome m,
+  perm_check outcome m = true <-> Permutation m outcome.
+Proof. exact perm_check_iff. Qed.
+Print Assumptions C03_shuffle_legal_iff_permutation.
+
 Example C03_shuffle_example :
   perm_check [3; 1; 2] [1; 2; 3] = true /\ perm_check [3; 1; 1] [1; 2; 3] = false /\
   perm_check [3; 1] [1; 2; 3] = false /\ NoDup [1; 2; 3].
